@@ -404,6 +404,7 @@ func (i *Iter) MarshalJSON() ([]byte, error) {
 // Output will be appended to the destination.
 func (i *Iter) MarshalJSONBuffer(dst []byte) ([]byte, error) {
 	var tmpBuf []byte
+	startLen := len(dst)
 
 	// Pre-allocate for 100 deep.
 	var stackTmp [100]uint8
@@ -437,6 +438,10 @@ writeloop:
 		switch i.t {
 		case TagRoot:
 			isOpenRoot := int(i.cur) > i.off
+			if !isOpenRoot && len(stack) == 1 && len(dst) > startLen {
+				// Closing tag of the root we started inside of. We are done.
+				break writeloop
+			}
 			if len(stack) > 1 {
 				if isOpenRoot {
 					return dst, errors.New("root tag open, but not at top of stack")
